@@ -87,8 +87,13 @@ func NewCompiler(
 		symbolTable = NewSymbolTable()
 	}
 
-	// add builtin functions to the symbol table
+	// add builtin functions to the symbol table; a name the caller has
+	// already defined (e.g. a Script variable named like a builtin function)
+	// keeps its meaning
 	for idx, fn := range builtinFuncs {
+		if _, _, ok := symbolTable.Resolve(fn.Name, false); ok {
+			continue
+		}
 		symbolTable.DefineBuiltin(idx, fn.Name)
 	}
 
